@@ -16,7 +16,26 @@ import sys
 from collections import deque
 
 
-_PyTask = asyncio.tasks._PyTask
+def _make_vtask():
+    """A Task whose stepping logic is CPython's own pure-Python implementation
+    (asyncio.tasks._PyTask, source re-read from the running interpreter) but which
+    derives from the C asyncio.Future, so that tornado's isinstance(x, asyncio.Future)
+    checks accept it, while its step remains an ordinary bound method that CrossHair can
+    trace (the C Task's step wrapper cannot be traced)."""
+    import inspect
+    import textwrap
+    import asyncio.tasks as T
+    src = textwrap.dedent(inspect.getsource(T._PyTask))
+    head = src.split(":", 1)[0]
+    assert head.startswith("class Task("), head
+    src = "class VTask(_CFuture):" + src[len(head) + 1:]
+    ns = dict(T.__dict__)
+    ns["_CFuture"] = asyncio.Future
+    exec(compile(src, "<vtask>", "exec"), ns)
+    return ns["VTask"]
+
+
+_PyTask = _make_vtask()
 
 
 class VHandle:
